@@ -81,6 +81,7 @@ Json Config::to_json() const
     j.set("cache_pages", cache_pages);
     j.set("sector", sector);
     j.set("checks", (long long)checks);
+    j.set("table_api", table_api);
     j.set("profile", profile);
     Json g = Json::object();
     g.set("long_labels", gf.long_labels);
@@ -103,6 +104,7 @@ Config Config::from_json(const Json& j)
     c.cache_pages = (int)j.geti("cache_pages", 0);
     c.sector = (int)j.geti("sector", 4096);
     c.checks = (uint32_t)j.geti("checks", CK_ALL);
+    c.table_api = j.getb("table_api", false);
     c.profile = j.gets("profile");
     if (auto* g = j.find("gen"))
     {
@@ -366,6 +368,11 @@ void World::end_call(Outcome& o)
 
 void World::open_library()
 {
+    if (plan.cfg.table_api && v2)
+    {
+        open_table_library();
+        return;
+    }
     Outcome o = call(FaultSpec{}, [&] {
         if (plan.cfg.on_disk)
             db = eng::create_database(dir, schema);
@@ -399,6 +406,7 @@ void World::close_all(Rng* order)
     for (auto& c : crates)
         rel.emplace_back([&c] { c.h.reset(); });
     rel.emplace_back([this] { db.reset(); });
+    rel.emplace_back([this] { close_table_library(); });
     if (order)
         for (size_t i = rel.size(); i > 1; --i)
             std::swap(rel[i - 1], rel[order->below(i)]);
@@ -412,7 +420,13 @@ bool World::reload()
     bool set_marker = false;
     // poison so that "never assigned" is visible
     loaded = static_cast<eng::engine_schema>(12345);
-    Outcome o = call(FaultSpec{}, [&] {
+    if (plan.cfg.table_api && v2 && tstate)
+    {
+        if (!reload_table_library())
+            return false;
+        loaded = schema;
+    }
+    Outcome o = (plan.cfg.table_api && v2 && tstate) ? Outcome{} : call(FaultSpec{}, [&] {
         db = eng::load_database(dir, loaded);
         set_marker = true;
     });
